@@ -45,57 +45,113 @@ def destroy_fn(ctx, cls, nparams=0):
     return [f for f in ctx.fb.functions(rec=cls, name="destroyObjects") if len(f.params) == nparams]
 
 
-def container_may_be_nonempty(f, var, paired=None):
+def container_may_be_nonempty(f, var, paired=None, others=()):
     """forward may-analysis: at each position, can local container `var` hold elements?
     `paired`: another local container that is pushed in the same blocks; a branch on its empty() then
-    also decides `var`"""
+    also decides `var`.  `others`: further local containers of the same kind - contents travel between them by
+    swap / move / copy."""
     pushes = ("push_back", "emplace_back", "insert", "emplace", "assign", "resize")
-    block_in = {f.entry: False}
+    allv = [var] + [o for o in others if o != var]
+    block_in = {f.entry: frozenset()}
     before = {}
     work = [f.entry]
     it = 0
+
+    def moved_src(e):
+        """(path, moved?) of a container expression used as the source of a construction / assignment"""
+        e = unwrap(f, e)
+        while e is not None and e["k"] in CTORS and len(e["args"]) == 1:
+            e = unwrap(f, f.s(e["args"][0]))
+        if e is not None and e["k"] == "CallExpr" and callee_fq(e) in ("std::move",) and e["args"]:
+            return path(f, f.s(e["args"][0])), True
+        return (path(f, e) if e is not None else None), False
+
     while work and it < 3000:
         it += 1
         b = work.pop(0)
-        st_ = block_in[b]
+        st_ = set(block_in[b])
         blk = f.blocks[b]
         for i, e in enumerate(blk.elems):
-            before[(b, i)] = st_
+            before[(b, i)] = frozenset(st_)
             if e["k"] == "S":
                 s = f.stmts[e["s"]]
-                if s["k"] == "CXXMemberCallExpr" and path(f, f.s(s["obj"])) == var:
+                if s["k"] == "CXXMemberCallExpr" and path(f, f.s(s["obj"])) in allv:
                     nm = s["callee"]["name"]
+                    v = path(f, f.s(s["obj"]))
                     if nm in pushes:
-                        st_ = True
+                        st_.add(v)
                     elif nm == "clear":
-                        st_ = False
-                elif s["k"] == "DeclStmt" and any("l:" + d["name"] == var for d in s["decls"]):
-                    st_ = False
-                elif s["k"] == "CXXOperatorCallExpr" and s.get("op") == "=" and path(f, f.s(s["args"][0])) == var:
-                    st_ = True
-        outs = [st_] * len(blk.succs)
+                        st_.discard(v)
+                    elif nm == "swap" and s["args"]:
+                        o = path(f, f.s(s["args"][0]))
+                        a_, b_ = v in st_, o in st_
+                        (st_.add if b_ else st_.discard)(v)
+                        if o in allv:
+                            (st_.add if a_ else st_.discard)(o)
+                elif s["k"] == "CallExpr" and callee_fq(s) == "std::swap" and len(s["args"]) == 2:
+                    x, y = path(f, f.s(s["args"][0])), path(f, f.s(s["args"][1]))
+                    if x in allv or y in allv:
+                        a_, b_ = x in st_, y in st_
+                        if x in allv:
+                            (st_.add if b_ else st_.discard)(x)
+                        if y in allv:
+                            (st_.add if a_ else st_.discard)(y)
+                elif s["k"] == "DeclStmt":
+                    for d in s["decls"]:
+                        v = "l:" + d["name"]
+                        if v not in allv:
+                            continue
+                        st_.discard(v)
+                        if d.get("init"):
+                            src, mv = moved_src(f.s(d["init"]))
+                            if src in allv and src in st_:
+                                st_.add(v)
+                                if mv:
+                                    st_.discard(src)
+                            elif src is not None and src not in allv and unwrap(f, f.s(d["init"])) is not None and \
+                                    (unwrap(f, f.s(d["init"])) or {}).get("args"):
+                                st_.add(v)         # built from something else: may hold elements
+                elif s["k"] == "CXXOperatorCallExpr" and s.get("op") == "=" and path(f, f.s(s["args"][0])) in allv:
+                    v = path(f, f.s(s["args"][0]))
+                    src, mv = moved_src(f.s(s["args"][1]))
+                    if src in allv:
+                        (st_.add if src in st_ else st_.discard)(v)
+                        if mv:
+                            st_.discard(src)
+                    else:
+                        st_.add(v)
+        outs = [frozenset(st_)] * len(blk.succs)
         if blk.term and blk.term.get("cond") and len(blk.succs) == 2:
             c = unwrap(f, f.s(blk.term["cond"]))
             neg = False
             while c is not None and c["k"] == "UnaryOperator" and c["op"] == "!":
                 neg = not neg
                 c = unwrap(f, f.children(c)[0])
-            if c is not None and c["k"] == "CXXMemberCallExpr" and c["callee"]["name"] == "empty" and \
-                    path(f, f.s(c["obj"])) in (var, paired):
-                # true edge: empty() is true (unless negated)
-                t_empty = not neg
-                outs = [False if t_empty else st_, st_ if t_empty else False]
+            if c is not None and c["k"] == "CXXMemberCallExpr" and c["callee"]["name"] == "empty":
+                cp_ = path(f, f.s(c["obj"]))
+                tested = [cp_] if cp_ in allv else ([var] if cp_ == paired else [])
+                if tested:
+                    emp = frozenset(x for x in st_ if x not in tested)
+                    t_empty = not neg
+                    outs = [emp if t_empty else frozenset(st_), frozenset(st_) if t_empty else emp]
         for idx, s in enumerate(blk.succs):
             if s is None:
                 continue
-            new = outs[idx]
+            new_ = outs[idx]
             old = block_in.get(s)
-            j = new if old is None else (old or new)
-            if old is None or j != old:
-                block_in[s] = j
+            j_ = new_ if old is None else (old | new_)
+            if old is None or j_ != old:
+                block_in[s] = j_
                 if s not in work:
                     work.append(s)
-    return before
+    # per position: may `var` be non-empty (bool, as before); the full sets are available as .sets
+    res = _NE({k: (var in v) for k, v in before.items()})
+    res.sets = before
+    return res
+
+
+class _NE(dict):
+    pass
 
 
 def unlocked(ctx, rid="C16.unlocked"):
@@ -117,11 +173,19 @@ def unlocked(ctx, rid="C16.unlocked"):
 
         # keep-alive vector: the local vector<shared_ptr<X>> that elements are copied into
         keep = None
+        keeps = []
         for st in f.stmts.values():
             if st["k"] == "DeclStmt":
                 for d in st["decls"]:
                     if d["type"].startswith("std::vector<std::shared_ptr<") and d.get("k") == "local" and not d.get("ref"):
-                        keep = "l:" + d["name"]
+                        keeps.append("l:" + d["name"])
+        # the one elements are copied into
+        for k_ in keeps:
+            if any(s_["k"] == "CXXMemberCallExpr" and path(f, f.s(s_["obj"])) == k_ and s_["callee"]["name"] in ("push_back", "emplace_back")
+                   for s_ in f.stmts.values()):
+                keep = k_
+        if keep is None and keeps:
+            keep = keeps[-1]
         if keep is None:
             ctx.broken("no local keep-alive vector in destroyObjects()")
         # a container pushed in the same blocks
@@ -137,7 +201,7 @@ def unlocked(ctx, rid="C16.unlocked"):
         for p, bl in cand.items():
             if bl == kblocks:
                 paired = p
-        ne = container_may_be_nonempty(f, keep, paired)
+        ne = container_may_be_nonempty(f, keep, paired, others=keeps)
         # callbacks
         cbs = [st for st in f.stmts.values() if st["k"] == "CXXOperatorCallExpr" and st.get("op") == "()" and
                (f.s(st["args"][0]) or {}).get("t", "").replace("const ", "").startswith("std::function<")]
@@ -158,24 +222,70 @@ def unlocked(ctx, rid="C16.unlocked"):
         for pos in f.positions():
             e = f.elem(pos)
             rel = None
-            if e["k"] == "AD" and "l:" + e["var"]["name"] == keep:
-                rel = "scope end of %s" % keep[2:]
+            which = None
+            if e["k"] == "AD" and "l:" + e["var"]["name"] in keeps:
+                which = "l:" + e["var"]["name"]
+                rel = "scope end of %s" % which[2:]
             elif e["k"] == "S":
                 s = f.stmts[e["s"]]
-                if s["k"] == "CXXMemberCallExpr" and path(f, f.s(s["obj"])) == keep and \
+                if s["k"] == "CXXMemberCallExpr" and path(f, f.s(s["obj"])) in keeps and \
                         s["callee"]["name"] in ("clear", "pop_back", "erase", "resize", "shrink_to_fit"):
-                    rel = "%s.%s()" % (keep[2:], s["callee"]["name"])
+                    which = path(f, f.s(s["obj"]))
+                    rel = "%s.%s()" % (which[2:], s["callee"]["name"])
             if rel is None:
                 continue
             n_rel += 1
             s_ = lock_state(pos)
-            maybe_full = ne.get(tuple(pos), True)
+            maybe_full = which in ne.sets.get(tuple(pos), frozenset(keeps))
             ok = (s_ == UNOWNED) or (not maybe_full)
             site = f.loc(f.elem_stmt(pos)) if f.elem_stmt(pos) else "%s:%s" % (f.where.split(":")[0], e.get("l", "?"))
             ctx.ob(rid, ok, site, "objects kept alive are released (%s) only with destructionLock released" % rel,
                    "" if ok else "lock state %s and the vector may still hold the last references: element destructors run "
                    "under the container lock" % s_, fn=f.label, inst=f.qname)
         ctx.ob(rid, n_rel >= 2, f.where, "release points of the keep-alive vector found", "", fn=f.label, inst=f.qname)
+        # unwinding: when a callback throws, the locals alive at the call die in reverse order of declaration.  A guard
+        # object declared AFTER the keep-alive vector whose destructor takes the lock again therefore re-locks BEFORE the
+        # vector releases the last references: the element destructors run under the container lock.
+        decl_pos = {}
+        for st in f.stmts.values():
+            if st["k"] == "DeclStmt" and f.pos_of(st):
+                for d in st["decls"]:
+                    decl_pos["l:" + d["name"]] = (tuple(f.pos_of(st)), d)
+        relockers = {}      # local -> site of a lock acquisition performed by its (inlined) destructor
+        for st in f.stmts.values():
+            if st["k"] == "CXXMemberCallExpr" and st["callee"]["name"] in ("lock", "try_lock", "try_lock_for", "try_lock_until"):
+                o = f.s(st["obj"])
+                base = unwrap(f, f.s(o.get("base"))) if o is not None and o["k"] == "MemberExpr" and o.get("base") else None
+                if base is not None and base["k"] == "DeclRefExpr" and base["d"].get("inl_this") and "dtor_" in base["d"].get("name", ""):
+                    # whose destructor: the object the inlined `this` is bound to
+                    from ..engine import _ref_target
+                    tgt = _ref_target(f, base["d"]["id"])
+                    op_ = path(f, tgt) if tgt is not None else None
+                    key = la.key_of_expr(o)
+                    v = la.state_at(f.pos_of(st)).get(key) if f.pos_of(st) else None
+                    if op_ and op_.startswith("&l:") and (v is None or v.mutex == LOCK or v.mutex is None):
+                        relockers[op_[1:]] = st
+        for c in cbs:
+            cp = f.pos_of(c)
+            if cp is None:
+                continue
+            for var, site in relockers.items():
+                if var not in decl_pos:
+                    continue
+                vpos = decl_pos[var][0]
+                bad = None
+                for k_ in keeps:
+                    if k_ not in decl_pos:
+                        continue
+                    kpos = decl_pos[k_][0]
+                    alive = f.dominates(vpos, cp) and f.dominates(kpos, cp) and k_ in ne.sets.get(tuple(cp), frozenset(keeps))
+                    later = f.dominates(kpos, vpos) and kpos != vpos
+                    if alive and later:
+                        bad = k_
+                ctx.ob(rid, bad is None, f.loc(site), "if the callback throws, the kept-alive objects are not destroyed under the lock",
+                       "" if bad is None else "%s (declared after %s) re-acquires destructionLock in its destructor: on unwinding it runs "
+                       "first, so %s then drops the last references - and runs the element destructors - with the lock held"
+                       % (var[2:], bad[2:], bad[2:]), fn=f.label, inst=f.qname)
         # iterators into the shared vector do not survive an unlock
         unl = [f.pos_of(s) for s in f.stmts.values() if s["k"] == "CXXMemberCallExpr" and s["callee"]["name"] == "unlock"
                and (f.s(s["obj"]) or {}).get("t", "").startswith("std::unique_lock<")]
@@ -268,9 +378,11 @@ def noexcept_rule(ctx, rid="C16.noexcept"):
     for cls in (DD, DS):
         for f in destroy_fn(ctx, cls, 0):
             ctx.ob(rid, f.noexcept, f.where, "destroyObjects() is declared noexcept", "", fn=f.label, inst=f.qname)
-            tries = [s for s in f.stmts.values() if s["k"] == "CXXTryStmt"]
+            # the function's own (outermost) try statement; try blocks nested in it (e.g. inside an inlined guard
+            # destructor) are part of its body
+            tries = [s for s in f.stmts.values() if s["k"] == "CXXTryStmt" and not any(a["k"] == "CXXTryStmt" for a in f.ancestors(s))]
             ok = len(tries) == 1
-            detail = ""
+            detail = "" if ok else "%d top-level try statements" % len(tries)
             if ok:
                 t = tries[0]
                 hs = [f.s(h) for h in t["handlers"]]
